@@ -10,7 +10,7 @@ pkg=$(python3 -c "import json,sys;print(json.load(open('$sd/meta.json'))['packag
 d=$(mktemp -d /tmp/seedchk.XXXXXX)
 git -C /repo worktree add -q --detach "$d/r" HEAD >/dev/null 2>&1 || { echo "worktree failed"; exit 2; }
 cd "$d/r"
-demo=$(ls $sd/*_test.go 2>/dev/null | head -1)
+if [ -f "$sd/zz_seed_demo_test.go" ]; then demo="$sd/zz_seed_demo_test.go"; else demo=$(ls $sd/*_test.go 2>/dev/null | head -1); fi
 res=""
 if ! git apply "$sd/patch.diff" 2>/dev/null; then res="PATCH-DOES-NOT-APPLY"; else
   if [ -z "$SKIP_SUITE" ]; then
@@ -27,7 +27,7 @@ if ! git apply "$sd/patch.diff" 2>/dev/null; then res="PATCH-DOES-NOT-APPLY"; el
   git checkout -q -- . 
   if [ -n "$demo" ]; then
     cp "$demo" "$pkg/zz_seed_demo_test.go"
-    if go test -vet=off -count=1 -timeout 10m -run 'Seed' "./$pkg/" >"$d/demo0.log" 2>&1; then res="$res demo-without=pass"; else res="$res demo-without=FAIL(!)"; fi
+    if go test -vet=off -count=1 -timeout 10m -run 'Seed' "./$pkg/" >"$d/demo0.log" 2>&1; then res="$res demo-without=pass"; else res="$res demo-without=FAIL(!) [$(tail -5 $d/demo0.log | tr "\n" " " | cut -c1-300)]"; fi
   fi
 fi
 cd /; git -C /repo worktree remove --force "$d/r" >/dev/null 2>&1; rm -rf "$d"
